@@ -262,7 +262,7 @@ def _shape(toks):
 BAD_LITERALS = {
     # column type -> (column, its registered value, literals)
     'Bool': ('IsDir', ['maybe', '2', 'TRUE', 'tru', '-1', 'yes ', 'on', 'nul']),
-    'DateTime': ('Modified', ['-ab', '+x', '-', '+', '٢٠٢٣-01-01', '2021-01-01 ٢٣', '2021-13-45', '2021-02-30', '2021-01-01 25', '2021-01-01 10:61', '2021-01-01 10:10:61', '0000-00-00',
+    'DateTime': ('Modified', ['-ab', '+x', '-', '+', '٢٠٢٣-01-01', '2021-01-01 ٢٣', '2021-13-45', '2021-02-30', '2021-01-01 25', '2021-01-01 10:61', '2021-01-01 10:10:61', '0000-00-00', '-99999999999999999', '+99999999999',
                               'garbage', 'yesterdayx', '+1', '-999', '1969-12-31', '9999-12-31', 'x']),
     'Int': ('Size', ['abc', '1.5.5k', '-', '٣', '99999999999999999999', 'nan', '9999999999999999999999k', 'kb', '.', '-k']),
     'String': ('Name', ['[', '(', '(?P<', '\\', '*[', '%[', 'a{2', '**', '']),
